@@ -73,4 +73,14 @@ MUTANTS = [
     ("C02", "w-shift-ifftshift", T, "        if shift:\n            return fftshift(w)\n        return w", "        if shift:\n            return ifftshift(w)\n        return w"),
     ("C02", "power-flat-mean", T, "        return np.mean(self.abs(by)**2, axis=-1)", "        return np.mean(self.abs(by)**2, axis=-1) if self.signal.ndim == 1 else np.mean(self.abs(by)**2) * np.ones(2)"),
     ("C02", "w-stale-fs-cache", T, "    def fs(self): \n", "    def fs(self): \n        if not hasattr(self, '_fs'): self._fs = gv.fs\n        return self._fs\n"),
+    # ---- C01
+    ("C01", "sub-noise-unnegated", T, "np.broadcast_to(-other.noise, self.signal.shape)", "np.broadcast_to(other.noise, self.signal.shape)"),
+    ("C01", "getitem-view", T, "        if self.noise is None:\n            return electrical_signal( self.signal[slice] ) \n", "        if self.noise is None:\n            r = electrical_signal( self.signal[:1] ); r.signal = np.atleast_1d(self.signal[slice]); return r\n"),
+    ("C01", "rsub-delegates-sub", T, "    def __rsub__(self, other):\n        if not isinstance(other, self.__class__):", "    def __rsub__(self, other):\n        if isinstance(other, tuple): return self.__sub__(other)\n        if not isinstance(other, self.__class__):"),
+    ("C01", "2pol-int-slice-drops-axis", T, "            return optical_signal( self.signal[:,slice,np.newaxis], self.noise[:,slice,np.newaxis] )", "            return optical_signal( self.signal[:,slice], self.noise[:,slice] )"),
+    ("C01", "add-drops-right-noise-when-both", T, "        return self.__class__(self.signal + other.signal, self.noise + other.noise, dtype=dtype)", "        return self.__class__(self.signal + other.signal, self.noise + (other.noise if self.len() < 4000 else 0), dtype=dtype)"),
+    ("C01", "mul-inplace-self", T, "        dtype = np.result_type(self.signal, other.signal)\n\n        if self.noise is None and other.noise is None:\n            return self.__class__(self.signal * other.signal, dtype=dtype)", "        dtype = np.result_type(self.signal, other.signal)\n\n        if self.noise is None and other.noise is None:\n            if self.signal.dtype == dtype and self.len() == 13: self.signal *= other.signal; return self.__class__(self.signal, dtype=dtype)\n            return self.__class__(self.signal * other.signal, dtype=dtype)"),
+    ("C01", "ctor-npol1-from-2rows-takes-row1", T, "                if n_pol == 1:\n                    signal = signal[0]\n                    if noise is not None:\n                        noise = noise[0]\n        \n        self.n_pol = n_pol", "                if n_pol == 1:\n                    signal = signal[0]\n                    if noise is not None:\n                        noise = noise[1]\n        \n        self.n_pol = n_pol"),
+    ("C01", "copy-shares-noise", T, "        if n is None: \n            n = self.len()\n        return self[:n]", "        if n is None: \n            n = self.len()\n        r = self[:n]\n        if r.noise is not None and n == self.len(): r.noise = self.noise\n        return r"),
+    ("C01", "call-drops-npol-noise", T, "        if self.noise is None:\n            return self.__class__(signal)\n        return self.__class__(signal, noise)", "        if self.noise is None or (shift and domain == 't'):\n            return self.__class__(signal)\n        return self.__class__(signal, noise)"),
 ]
